@@ -152,10 +152,23 @@ ReplThenSibling ==
             y \in {Orig(<<cA>>), Orig(<<cA, NL, cA>>), Raw("str", <<cA>>)}} :
           x \in {Orig(<<cA, cA>>), Raw("str", <<cA, NL, cA>>), Orig(<<cA, NL>>)}}
 
+(* the same with a length change on an earlier line AND text appended at or  *)
+(* past the inner end: the column correction of one line must not leak into *)
+(* the end reported for another                                             *)
+ReplPairThenSibling ==
+  IF Scope \notin {"c01","c02"} THEN {} ELSE
+  UNION {{CC(<<Replace(x, <<Repl(p[1], p[2], c1), Repl(TextLen(x) + d, TextLen(x) + d, c2)>>), y>>) :
+            p \in {<<0, 0>>, <<0, 1>>, <<1, 2>>},
+            c1 \in {<<>>, <<cX>>, <<cX, cX>>},
+            d \in {0, 1},
+            c2 \in {<<cX>>, <<cX, NL>>, <<NL, cX>>},
+            y \in {Orig(<<cA>>), Orig(<<cA, NL, cA>>)}} :
+          x \in {Orig(<<cA, NL, cA>>), Orig(<<cA, cA, NL, cA>>)}}
+
 TreesSmall ==
   IF Scope \notin {"c01","c02"} THEN {} ELSE
   LeavesRich \cup Pairs \cup ReplOverLeaf1 \cup ReplOverLeaf2
-  \cup ReplOverPair \cup Wrapped \cup ReplThenSibling
+  \cup ReplOverPair \cup Wrapped \cup ReplThenSibling \cup ReplPairThenSibling
 
 (* binary and multi-byte leaves for the content-view scope                  *)
 BinLeaves ==
@@ -307,6 +320,20 @@ LawScope ==
                x \in LawXs \cup SlimPairs \cup {SmsC, SmsD}
                      \cup {Replace(Orig(<<cA, NL, cA>>), <<Repl(1, 2, <<cX>>)>>),
                            CC(<<Orig(<<cA>>), Raw("str", <<98>>), Orig(<<cA, NL>>)>>)}}
+
+(* ConcatSource over mapped, empty and raw children in every order (C04,     *)
+(* C03): a pending "close the mapping" must survive empty children          *)
+C04Kids ==
+  {Orig(<<cA>>), Orig(<<cA, NL>>), Orig(<<>>), Raw("str", <<>>), Raw("str", <<98>>),
+   Raw("str", <<98, NL>>), Replace(Orig(<<cA>>), <<Repl(0, 1, <<>>)>>)}
+C04Slim == {Orig(<<cA>>), Orig(<<>>), Raw("str", <<>>), Raw("str", <<98>>)}
+C04Scope ==
+  IF Scope \notin {"c04"} THEN {} ELSE
+  {Prog(<<Build(CC(<<x, y, z>>))>> \o StreamObs) : x \in C04Kids, y \in C04Kids, z \in C04Kids}
+  \cup {Prog(<<Build(CC(<<w, x, y, z>>))>> \o StreamObs) :
+          w \in C04Slim, x \in C04Slim, y \in C04Slim, z \in C04Slim}
+  \cup {Prog(<<Build(Cached(CC(<<x, y, z>>)))>> \o StreamObs) :
+          x \in C04Slim, y \in C04Slim, z \in C04Slim}
 
 C06Ys ==
   {Orig(<<cA>>), Orig(<<cA, NL>>), Raw("str", <<98, NL>>), Raw("str", <<98>>),
@@ -874,6 +901,7 @@ ProgSet ==
   CASE Scope \in {"c01", "c02"} -> {Prog(<<Build(t)>> \o StreamObs) : t \in TreesSmall}
     [] Scope = "c05" -> Hist2 \cup Hist3
     [] Scope = "c13" -> LawScope
+    [] Scope = "c04" -> C04Scope
     [] Scope = "c06" -> C06Scope
     [] Scope = "c06r" -> C06RScope
     [] Scope = "c08" -> C08Scope
